@@ -192,8 +192,9 @@ type Cluster struct {
 
 	stepNo    int
 	refQueued map[int]bool
-	keySeed   uint64 // identities derive their keys from this instead of the run seed (fixed histories)
-	nesting   int    // > 0 while a composite step executes its sub-steps
+	byzLast   *hg.Event // the last valid event the forger created (it never builds on anything else)
+	keySeed   uint64    // identities derive their keys from this instead of the run seed (fixed histories)
+	nesting   int       // > 0 while a composite step executes its sub-steps
 	steps     []*Step
 	start     time.Time
 	wakeups   []func()
